@@ -107,7 +107,9 @@ func c06Draw(rt *rapid.T) c06Case {
 			if c.Restarts < 0 {
 				c.Restarts = 0
 			}
-			c.FinishedAgo = rapid.SampledFrom([]time.Duration{time.Second, 15 * time.Second, 90 * time.Second, 5 * time.Minute}).Draw(rt, fmt.Sprintf("pod%d-c%d-finished", i, j))
+			// -1: the status carries the restart counter but no last-termination record (the dead container was
+			// garbage-collected, or the status was rebuilt)
+			c.FinishedAgo = rapid.SampledFrom([]time.Duration{time.Second, 15 * time.Second, 90 * time.Second, 5 * time.Minute, -1}).Draw(rt, fmt.Sprintf("pod%d-c%d-finished", i, j))
 			c.Waiting = rapid.SampledFrom(c06Waiting).Draw(rt, fmt.Sprintf("pod%d-c%d-waiting", i, j))
 			p.Containers = append(p.Containers, c)
 		}
@@ -221,7 +223,7 @@ func runC06Order(k c06Case, perm []int) (vs []mon.V, obs []c06Obs, err error) {
 				if j >= len(x.Spec.Containers) {
 					break
 				}
-				if kc.Restarts > 0 {
+				if kc.Restarts > 0 && kc.FinishedAgo >= 0 {
 					cs.LastTerminationState = corev1.ContainerState{Terminated: &corev1.ContainerStateTerminated{ExitCode: 1, Reason: "Error", FinishedAt: metav1.NewTime(now.Add(-kc.FinishedAgo))}}
 				}
 				if kc.Waiting != "" {
